@@ -9,6 +9,7 @@ import verde as vd
 from hypothesis import strategies as st
 
 from vlib import blocks, gen, kernels
+from vlib import build as vbuild
 from vlib.oracles import EPS, convex_hull
 from vlib.runner import Sub, Violation
 
@@ -43,12 +44,21 @@ def scaled_cond(jac):
     return float(sv[0] / sv[-1]) if sv[-1] > 0 else float("inf")
 
 
-def as_arrays(cloud, shape):
+def as_arrays(cloud, shape, lay=None):
     if "xy" in cloud:  # explicit coordinates (canaries and regression replays must not depend on the generator's jitter tables)
         es, ns = cloud["xy"]
     else:
         es, ns = gen.cloud_xy(cloud)
-    return np.array(es).reshape(shape), np.array(ns).reshape(shape)
+    lay = lay or vbuild.Lay(None)
+    return lay(es, shape), lay(ns, shape)
+
+
+def arrays_of(case, ncomp=1):
+    """coordinates and data of a case in the generated memory layouts"""
+    lay = vbuild.Lay(case.get("orders"))
+    e, n = as_arrays(case["cloud"], case["shape"], lay)
+    d = tuple(lay(v, case["shape"]) for v in case["data"][:ncomp])
+    return e, n, d
 
 
 def nonconstant(vals):
@@ -64,7 +74,7 @@ def cloud_cases(draw, min_n=1, ncomp=1):
     n = len(cloud["cells"])
     kind = draw(st.sampled_from(["unit", "int", "big", "small", "mixed", "huge"]))
     data = [draw(gen.data_values(n, kind)) for _ in range(ncomp)]
-    return dict(cloud=cloud, data=data, shape=draw(st.sampled_from(blocks.shape_options(n))))
+    return dict(cloud=cloud, data=data, shape=draw(st.sampled_from(blocks.shape_options(n))), orders=draw(vbuild.orders_strategy()))
 
 
 def big_clouds(tier):
@@ -94,8 +104,7 @@ def spline_cases_tier(tier):
 
 
 def check_spline(case, ctx):
-    e, n = as_arrays(case["cloud"], case["shape"])
-    d = np.array(case["data"][0]).reshape(case["shape"])
+    e, n, (d,) = arrays_of(case)
     md = case["mindist"]
     md_abs = 0.0 if md is None else md * case["cloud"]["scale"]
     jac = kernels.spline_jacobian(e, n, e, n, md_abs)
@@ -126,8 +135,7 @@ def vector_cases(draw):
 
 
 def check_vector(case, ctx):
-    e, n = as_arrays(case["cloud"], case["shape"])
-    d = tuple(np.array(v).reshape(case["shape"]) for v in case["data"])
+    e, n, d = arrays_of(case, 2)
     md = case["mindist"] * case["cloud"]["scale"]
     jac = kernels.vector_jacobian(e, n, e, n, md, case["poisson"])
     kappa = scaled_cond(jac)
@@ -152,8 +160,7 @@ def check_vector(case, ctx):
 
 # ---------------------------------------------------------------- KNeighbors(k=1)
 def check_knn(case, ctx):
-    e, n = as_arrays(case["cloud"], case["shape"])
-    d = np.array(case["data"][0]).reshape(case["shape"])
+    e, n, (d,) = arrays_of(case)
     kn = vd.KNeighbors().fit((e, n), d)
     pred = np.asarray(kn.predict((e, n)))
     ctx.check(pred.shape == d.shape, "prediction shape %s, data shape %s", pred.shape, d.shape)
@@ -189,8 +196,7 @@ def hull_of(e, n):
 
 
 def check_scipy(case, ctx):
-    e, n = as_arrays(case["cloud"], case["shape"])
-    d = np.array(case["data"][0]).reshape(case["shape"])
+    e, n, (d,) = arrays_of(case)
     hull = hull_of(e, n)
     if len(hull) < 3:
         ctx.skip("degenerate_hull")
@@ -238,9 +244,7 @@ def composition_cases(draw):
 
 
 def check_composition(case, ctx):
-    e, n = as_arrays(case["cloud"], case["shape"])
-    d0 = np.array(case["data"][0]).reshape(case["shape"])
-    d1 = np.array(case["data"][1]).reshape(case["shape"])
+    e, n, (d0, d1) = arrays_of(case, 2)
     comp = case["composition"]
     kappa = scaled_cond(kernels.spline_jacobian(e, n, e, n))
     uses_spline = "spline" in comp
@@ -332,7 +336,7 @@ def trend_cases(draw):
     m = draw(st.integers(1, 8))
     query = [[draw(gen.finite(-0.5 * side, 1.5 * side)), draw(gen.finite(-0.5 * side, 1.5 * side))] for _ in range(m)]
     return dict(cloud=cloud, degree=deg, poly=coefs, query=query, shape=draw(st.sampled_from(blocks.shape_options(len(cells)))),
-                weights=draw(st.booleans()))
+                weights=draw(st.booleans()), orders=draw(vbuild.orders_strategy()))
 
 
 def poly_eval(coefs, e, n):
@@ -348,7 +352,8 @@ def poly_eval(coefs, e, n):
 
 
 def check_trend(case, ctx):
-    e, n = as_arrays(case["cloud"], case["shape"])
+    lay_ = vbuild.Lay(case.get("orders"))
+    e, n = as_arrays(case["cloud"], case["shape"], lay_)
     deg = case["degree"]
     ncoef = (deg + 1) * (deg + 2) // 2
     if e.size < ncoef:
@@ -357,10 +362,10 @@ def check_trend(case, ctx):
     if not kappa <= 1e8:
         ctx.skip("ill_conditioned")
     vals, _ = poly_eval(case["poly"], e, n)
-    d = vals.reshape(case["shape"])
+    d = lay_(vals, case["shape"])
     tr = vd.Trend(deg)
     if case["weights"]:
-        w = (1.0 + (np.arange(e.size) % 7)).reshape(case["shape"])
+        w = lay_(1.0 + (np.arange(e.size) % 7), case["shape"])
         tr.fit((e, n), d, weights=w)
     else:
         tr.fit((e, n), d)
